@@ -446,6 +446,27 @@ def check_c20(seed, tier):
         st.pack(_time.time(), lambda data: [], gc=False)
         bad = bad or alloc(3)
         st.close()
+        # ids restored inside a transaction still in progress are already taken: an allocation made before the
+        # vote must not hand them out again (copyTransactionsFrom with a concurrent allocator)
+        st = H.FileStorage(path)
+        issued.clear()
+        t = H.Txn()
+        st.tpc_begin(t)
+        nxt = u64(st.new_oid())
+        issued.add(p64(nxt))
+        high = [p64(nxt + 1 + k) for k in range(4)]
+        for o in high:
+            st.restore(o, st._tid, b'r', '', None, t)
+        present.update(high)
+        in_flight = alloc(4)
+        st.tpc_vote(t)
+        st.tpc_finish(t)
+        in_flight = in_flight or alloc(2)
+        st.close()
+        if in_flight:
+            return fail({'scenario': 'n = new_oid(); tpc_begin; restore(n+1..n+4); new_oid() x4 before the vote; finish; '
+                         'new_oid() x2'}, 'an id never issued and not present (restored ids count as present)',
+                        'new_oid() returned %r' % in_flight, cases)
         if bad:
             return fail({'scenario': 'allocate / store / restore high ids / abort / reopen / pack on FileStorage'},
                         'an id never issued and not present', 'new_oid() returned %r' % bad, cases)
@@ -459,6 +480,36 @@ def check_c20(seed, tier):
                     return fail({'storage': mk.__name__}, 'distinct ids', 'repeated %r' % o, cases)
                 got.add(o)
             s.close()
+        # DemoStorage falls back to a random draw when the next sequential id is taken: an id that was issued, stored
+        # and whose transaction was aborted is still an issued id (its holder may store it again)
+        import random as _random
+        base = MappingStorage()
+        t = H.Txn()
+        base.tpc_begin(t)
+        base.store(p64(1001), z64, b'in the base', '', t)
+        base.tpc_vote(t)
+        base.tpc_finish(t)
+        s = DemoStorage(base=base)
+        real_randint = _random.randint
+        script = [1000, 1000, 7000]
+        _random.randint = lambda a, b: script.pop(0) if script else real_randint(a, b)
+        try:
+            s._next_oid = 1000
+            got = [s.new_oid()]
+            t = H.Txn()
+            s.tpc_begin(t)
+            s.store(got[0], z64, b'x', '', t)
+            s.tpc_abort(t)
+            for _ in range(3):
+                cases += 1
+                got.append(s.new_oid())
+        finally:
+            _random.randint = real_randint
+        if len(set(got)) != len(got):
+            return fail({'storage': 'DemoStorage', 'scenario': 'new_oid() -> X; store X; tpc_abort; the next candidate '
+                         'is taken in the base and the random redraw lands on X again'}, 'distinct ids',
+                        'issued %r' % [u64(o) for o in got], cases)
+        s.close()
     finally:
         shutil.rmtree(d, ignore_errors=True)
     return {'found': False, 'cases': cases}
